@@ -71,6 +71,7 @@ StateClauses(T, e, ch) ==
             Len(e.env.mask) = NA(T) /\ \A a \in 1..NA(T) : (e.env.mask[a] = 1) <=> Mask(cfg, env)[a])
   \cup Fail("C09", "StateShowsNormalisedHiddenValueOrZero", ObsOK(T, cfg, env, e.env.obs))
   \cup Fail("C09", "RewardIsNegatedGap", GapOK(T, t, e.env.gap))
+  \cup Fail("C09", "ObserversLeaveEnvironmentUntouched", e.env.pure = 1)
   \cup Fail("C09", "RewardNeverPositive", InClass(T) => e.env.gap[2] >= 0 - T.tol)
   \* on float games "all intervals degenerate" is read off the raw table by the driver (deg); on exact games it is recomputed
   \cup Fail("C09", "DegenerateFlagMatchesTable", exact => ((e.env.deg = 1) <=> AllDegenerate(t)))
